@@ -18,6 +18,7 @@ import numpy as np
 from vf import tlc, zoo, refeval as rf, trace as vtrace
 from vf.adapters import c05
 from vf.par import pmap
+from vf.armrun import free_indices as armrun_free, pose_tol as armrun_pose_tol
 
 LEVEL = "model_checking"
 PI = math.pi
@@ -112,11 +113,11 @@ def campaign(job):
                 elif path == "free":
                     th, ok = arm.IK(tm(goal.copy()), start.copy(), check=restarts, protect=True)
                 else:
-                    th, ok = arm.IKFree(tm(goal.copy()), start.copy(), list(range(n)))
+                    th, ok = arm.IKFree(tm(goal.copy()), start.copy(), armrun_free(rng, n))
             except Exception as e:
                 ev.append({"op": "Raise", "msg": "%s: %s" % (type(e).__name__, e), "path": path, "g": g})
                 break
-            th = np.asarray(th, dtype=float).reshape(-1)
+            th = np.array(th, dtype=float).reshape(-1)       # a copy: the library clamps its stored vector in place later on
             inlim = bool(np.all(th >= spec["mins"] - 1e-9) and np.all(th <= spec["maxs"] + 1e-9))
             # pose of the returned vector (the limit-respecting path is evaluated clamped, as FK would)
             thc = zoo.clamp(spec, th) if path != "free" else th
@@ -126,10 +127,14 @@ def campaign(job):
             vb = rf.se3_log(D)[3:]
             vs = (rf.adjoint(Tret) @ rf.se3_log(D))[3:]
             pos = min(float(np.linalg.norm(goal[:3, 3] - Tret[:3, 3])), float(np.linalg.norm(vb)), float(np.linalg.norm(vs)))
+            # a returned vector with angles of 1e7..1e11 rad (free solvers do that) has a pose only up to a few of its own
+            # ulps: that float ambiguity is not charged to the solver
+            slack = armrun_pose_tol(thc, 0.0) - armrun_pose_tol(np.zeros(1), 0.0)
+            ang, pos = max(0.0, ang - slack), max(0.0, pos - slack * (1.0 + reach))
             ee = arm.getEEPos().gTM()
             jt = arm.getJointTransforms()[-1].gTM()
             coh = float(np.abs(ee - jt).max()) <= 1e-7
-            stateis = float(np.abs(ee - Tret).max()) <= max(1e-7, 0) and (coh or path == "free")
+            stateis = float(np.abs(ee - Tret).max()) <= armrun_pose_tol(thc, reach) and (coh or path == "free")
             J = zoo.jac_space_expected(spec, base, zoo.clamp(spec, th_star))
             smin = float(np.linalg.svd(J, compute_uv=False)[min(6, n) - 1]) if n >= 1 else 0.0
             margin = float(np.min(np.minimum(th_star - spec["mins"], spec["maxs"] - th_star)))
@@ -178,14 +183,25 @@ def run(ctx):
     with ctx.timed("validate"):
         acc, _ = vtrace.validate(ctx, "ArmTrace", CFG, [strip(t) for t in traces], "c07")
     bad = [t for t in traces if t["id"] not in acc]
-    for t in bad[:5]:
-        k, _ = vtrace.first_unmatched("ArmTrace", CFG, strip(t))
+    reported = 0
+    for t in bad:
+        # the first event IKPost rejects, by the harness' reading of the clauses; TLC is asked for it for the traces
+        # that are reported in full
+        k = next((i for i, e in enumerate(t["ev"]) if e["op"] == "Raise" or (e["op"] == "IK" and not ik_post(e))), None)
+        if k is None or reported < 5:
+            k, _ = vtrace.first_unmatched("ArmTrace", CFG, strip(t))
         e = t["ev"][k] if k < len(t["ev"]) else None
-        ctx.violation(clause_of(e), {"arm": t["arm"], "seed": t["seed"], "event_index": k, "event": e},
-                      expected="IKPost(event)", observed={k2: e[k2] for k2 in e if k2 != "detail"} if e else None,
-                      tags=(["log_near_pi"] if t.get("tainted") else []) +
-                           (["exp_cutoff"] if e and e.get("tiny") and clause_of(e) == "state_is_not_the_solution" else []))
-    ctx.violations += max(0, len(bad) - 5)
+        tags = (["log_near_pi"] if t.get("tainted") else []) + \
+               (["exp_cutoff"] if e and e.get("tiny") and clause_of(e) == "state_is_not_the_solution" else [])
+        if any(tg in ctx.known for tg in tags):
+            ctx.violation(clause_of(e), {"arm": t["arm"], "seed": t["seed"]}, tags=tags)       # KNOWN-FINDING line (once), counts nothing
+            continue
+        reported += 1
+        if reported <= 5:
+            ctx.violation(clause_of(e), {"arm": t["arm"], "seed": t["seed"], "event_index": k, "event": e},
+                          expected="IKPost(event)", observed={k2: e[k2] for k2 in e if k2 != "detail"} if e else None)
+        else:
+            ctx.violations += 1
     iks = [e for t in traces for e in t["ev"] if e["op"] == "IK"]
     cov = {}
     for e in iks:
@@ -210,6 +226,18 @@ def run(ctx):
                     "the local-convergence clause is applied only for 6+ joint arms with sigma_min(J) >= 0.05 and the "
                     "solution >= 0.15 rad inside the limits, as the property restricts it",
                     "for the free path the returned vector is evaluated unclamped"])
+
+
+def ik_post(e):
+    """IKPost of Arm.tla, mirrored only to pick the event to show / classify (TLC has already rejected the trace)"""
+    if e["ok"]:
+        if e["ang"] > 1000 or e["pos"] > 1000 or (e["path"] == "constrained" and not e["inlim"]) or not e["stateis"] or e["g"] == "beyond":
+            return False
+    elif not e["coh"]:
+        return False
+    if e["s"] == "near" and e["wellcond"] and e["g"] == "reach" and e["path"] != "IKFree" and not e["ok"]:
+        return False
+    return True
 
 
 def clause_of(e):
